@@ -95,7 +95,9 @@ func vjcOrders(n int, rng *rand.Rand, maxAll, randomN int) [][]int {
 	return out
 }
 
-func vjcRun[N constraints.Unsigned](t *testing.T, width string, res *vResult, beh, ci int, raw json.RawMessage, cs *vjcCase, vs VoterSet[string], dupVoter bool, orders [][]int) {
+// vjcRun returns true when every order was accepted.  otherWidthAccepted: the same case was
+// accepted in every order with the other number width (the verdict must not depend on it).
+func vjcRun[N constraints.Unsigned](t *testing.T, width string, res *vResult, beh, ci int, raw json.RawMessage, cs *vjcCase, vs VoterSet[string], dupVoter bool, orders [][]int, otherWidthAccepted bool) bool {
 	type outcome struct {
 		valid bool
 		ord   []int
@@ -111,7 +113,7 @@ func vjcRun[N constraints.Unsigned](t *testing.T, width string, res *vResult, be
 		res.Cmp()
 		if pm != "" {
 			fail("panic", "no panic", fmt.Sprintf("%s (order %v)", pm, ord), "panic")
-			return
+			return false
 		}
 		if err != nil {
 			valid = false
@@ -130,7 +132,11 @@ func vjcRun[N constraints.Unsigned](t *testing.T, width string, res *vResult, be
 		if !cs.Res.CommitEnough {
 			fail("valid", "false (no supermajority on the target)", fmt.Sprintf("true (order %v)", accepted.ord), "accepts-without-supermajority")
 		} else if cs.Res.CommitTol && !cs.Res.CommitGood {
-			fail("valid", "false (GHOST is not the target / precommits not connected)", fmt.Sprintf("true (order %v)", accepted.ord), "accepts-ghost-not-target")
+			class := "accepts-ghost-not-target"
+			if dupVoter {
+				class += "/voter-listed-twice" // the GHOST moves when a repeated id's weights are not summed
+			}
+			fail("valid", "false (GHOST is not the target / precommits not connected)", fmt.Sprintf("true (order %v)", accepted.ord), class)
 		}
 	}
 	if rejected != nil && cs.Res.CommitGood && cs.Res.CommitTol && !failed {
@@ -140,6 +146,8 @@ func vjcRun[N constraints.Unsigned](t *testing.T, width string, res *vResult, be
 			class = "rejects-good/voter-listed-twice"
 		case orderDep:
 			class = "rejects-good/order-dependent"
+		case otherWidthAccepted:
+			class = "rejects-good/number-width-dependent"
 		}
 		fail("valid", "true", fmt.Sprintf("false (order %v)", rejected.ord), class)
 	}
@@ -149,6 +157,7 @@ func vjcRun[N constraints.Unsigned](t *testing.T, width string, res *vResult, be
 	if orderDep && !failed && cs.Res.CommitTol {
 		fail("valid", "same verdict in every order", fmt.Sprintf("accepted in %v, rejected in %v", accepted.ord, rejected.ord), "order-dependent")
 	}
+	return rejected == nil && accepted != nil
 }
 
 func TestVerifValidateCommit(t *testing.T) {
@@ -215,8 +224,8 @@ func TestVerifValidateCommit(t *testing.T) {
 			}
 			// ---- the commit, both number widths, many orders ----------------------
 			orders := vjcOrders(len(cs.O.Es), rng, maxAll, randomN)
-			vjcRun[uint32](t, "u32", res, b.ID, ci, raw, &cs, *vs, dupVoter, orders)
-			vjcRun[uint64](t, "u64", res, b.ID, ci, raw, &cs, *vs, dupVoter, orders)
+			ok64 := vjcRun[uint64](t, "u64", res, b.ID, ci, raw, &cs, *vs, dupVoter, orders, false)
+			vjcRun[uint32](t, "u32", res, b.ID, ci, raw, &cs, *vs, dupVoter, orders, ok64)
 		}
 	}
 }
